@@ -81,6 +81,11 @@ def cbeh(b):
     return "(Beh %s %d %s)" % (cbool(b.get("nil", False)), BRES[b.get("res", "")], st)
 
 
+def op_method(x):
+    """Get/Post are MethodFile with the net/http method names."""
+    return {"get": "GET", "post": "POST"}.get(x["op"], x.get("m", ""))
+
+
 def paths_of(c, sets):
     return sets["small"] if c.get("pset") == "small" else c.get("paths") or []
 
@@ -113,9 +118,9 @@ def to_coq(c, sets):
                 return "RIndex %d" % x["h"]
             if x["op"] == "default":
                 return "RDefault %d" % x["h"]
-            if x["op"] == "dir":
+            if x["op"] in ("dir", "dirsvc"):
                 return "RDir %s %d" % (cs(x.get("p", "")), x["h"])
-            return "RFile %s %s %d" % (cs(x.get("m", "")), cs(x.get("p", "")), x["h"])
+            return "RFile %s %s %d" % (cs(op_method(x)), cs(x.get("p", "")), x["h"])
         defs = clist(clist(rop(x) for x in d["ops"]) for d in c["routers"])
         roks = clist(clist(str(x) for x in r) for r in o.get("roks") or [])
         reqs = clist("(%s, %s)" % (cs(q["path"]), cs(q["method"])) for q in c.get("reqs") or [])
@@ -268,7 +273,7 @@ def oracle_router(c, sets):
                     want = 0
                 else:
                     want = 1
-                    r["nodes"][rt] = (op["op"] == "dir", op.get("m", ""), op["h"])
+                    r["nodes"][rt] = (op["op"] in ("dir", "dirsvc"), op_method(op), op["h"])
             if want != ok:
                 return "registering %r answered %d (1 ok, 0 duplicate, 2 panic), expected %d" % (op, ok, want), {"op": op}
 
@@ -360,6 +365,41 @@ def impl_oracle(c, sets):
     return ORACLES[c["kind"]](c, sets)
 
 
+def tally(dist, c):
+    """Measured distribution of what the implementation did (branch coverage of the decision functions)."""
+    o = c.get("obs") or {}
+    k = c["kind"]
+
+    def bump(name):
+        dist[name] = dist.get(name, 0) + 1
+    if o.get("crash"):
+        bump(k + ":crash")
+    elif k == "mux":
+        for t in o.get("routes") or []:
+            bump("mux:route-hit" if t >= 0 else "mux:route-miss")
+        for x in o.get("oks") or []:
+            bump("mux:register-%s" % ("refused", "ok", "panic")[x])
+    elif k == "trie":
+        for b in o.get("exacts") or []:
+            bump("trie:find-exact" if b else "trie:find-inexact")
+    elif k == "seg":
+        for f in o.get("sfinds") or []:
+            bump("seg:find-hit" if f["v"] else "seg:find-none")
+    elif k == "router":
+        for q in o.get("reqs") or []:
+            bump("router:%s%s" % (q["err"], "" if q["tag"] < 0 else "+handler"))
+        for fl in o.get("roks") or []:
+            for x in fl:
+                bump("router:register-%s" % ("refused", "ok", "panic")[x])
+    elif k == "tiers":
+        bump("tiers:%s:%s" % ("internal" if c.get("internal") else "serve", o.get("res", "")[:3]))
+        for e in o.get("trace") or []:
+            bump("tiers:event-" + e["t"])
+    elif k == "host":
+        for t in o.get("hosts") or []:
+            bump("host:hit" if t >= 0 else "host:miss")
+
+
 def case_key(c):
     return json.dumps({k: v for k, v in c.items() if k not in ("i", "obs", "stream")}, sort_keys=True)
 
@@ -379,12 +419,116 @@ def trivial(c):
     return False
 
 
+def run_cases(binp, cs, timeout=300):
+    """Run explicit cases through the harness (-run); returns them with fresh observations."""
+    inp = "".join(json.dumps({k: v for k, v in c.items() if k != "obs"}) + "\n" for c in cs)
+    rc, out = vlib.sh([binp, "-run"], input=inp, timeout=timeout)
+    res = [json.loads(l) for l in out.splitlines() if l.startswith("{")]
+    return res if len(res) == len(cs) else None
+
+
+def explicit(c, sets):
+    """The case with shared path sets spelled out."""
+    c = json.loads(json.dumps(c))
+    if c.get("pset") == "small":
+        c["paths"] = list(sets["small"])
+        del c["pset"]
+    if c.get("sqset") == "segq":
+        c["sq"] = [list(q) for q in sets["segq"]]
+        del c["sqset"]
+    return c
+
+
+def variants(c):
+    """Strictly smaller cases: one registration or one request less; a single request."""
+    def drop(field, sub=None):
+        seq = c.get(field) or []
+        for i in range(len(seq)):
+            d = json.loads(json.dumps(c))
+            del d[field][i]
+            yield d
+    k = c["kind"]
+    lists = {"mux": ("ops", "paths"), "trie": ("adds", "paths"), "seg": ("sadds", "sq"),
+             "router": ("reqs",), "host": ("hsets", "hreqs")}.get(k, ())
+    for f in lists[1:] if len(lists) > 1 else lists:
+        seq = c.get(f) or []
+        if len(seq) > 1:                      # keep a single request
+            for i in range(len(seq)):
+                d = json.loads(json.dumps(c))
+                d[f] = [seq[i]]
+                yield d
+    if lists and k != "router":
+        yield from drop(lists[0])
+    if k == "router":
+        for ri, r in enumerate(c["routers"]):
+            for oi in range(len(r["ops"])):
+                d = json.loads(json.dumps(c))
+                del d["routers"][ri]["ops"][oi]
+                yield d
+
+
+def shrink(binp, c, sets, rounds=60):
+    """Greedy delta-debugging on the implementation side: keep the first smaller
+    case on which the oracle still fails."""
+    cur = explicit(c, sets)
+    for _ in range(rounds):
+        vs = list(variants(cur))
+        if not vs:
+            break
+        res = run_cases(binp, vs)
+        if res is None:
+            break
+        nxt = next((r for r in res if impl_oracle(r, sets)), None)
+        if nxt is None:
+            break
+        cur = nxt
+    return cur
+
+
 HEADER = ("From Coq Require Import List NArith ZArith.\n"
           "From Verif Require Import Aries.Str Aries.Radix Aries.SegTrie Aries.Router Aries.Tiers Aries.Corr.\n"
           "Import ListNotations.\nLocal Open Scope N_scope.\n")
 
 
+def replay(ck):
+    """bin/check C20 --replay replays/C20/<hash>.json : re-run that one case."""
+    body = json.load(open(ck.replay))
+    c = body.get("case")
+    binp = ck.build_harness("c20")
+    if not c or not binp:
+        ck.broken.append({"what": "replay file has no case or the harness does not build"})
+        return ck.finish()
+    sets = json.loads(vlib.sh2([binp, "-sets"], timeout=120)[1])
+    res = run_cases(binp, [c])
+    if not res:
+        ck.violation("impl:%s:crash" % c["kind"], "the harness died on the replayed case", {"case": c})
+        return ck.finish()
+    c = res[0]
+    ck.count(c.get("stream", "replay"), key=case_key(c))
+    why = impl_oracle(c, sets)
+    ck.log("replay: observed", json.dumps(c.get("obs"))[:600])
+    ck.log("replay: oracle:", why[0] if why else "no failure")
+    ck.gen()
+    built = ck.coq_make(MODEL)
+    if all(built.get(x) for x in MODEL):
+        txt = (HEADER + "Definition P_small : list str := %s.\nDefinition Q_seg : list (list str) := %s.\n"
+               % (clist(cs(p) for p in sets["small"]), clist(clist(cs(s) for s in q) for q in sets["segq"]))
+               + "Definition cases : list ccase := [ %s ].\n" % to_coq(c, sets)
+               + "Definition M := Eval vm_compute in mismatches cases.\nPrint M.\n")
+        rc, out = ck.coq_eval("replay", txt)
+        got = vlib.parse_coq_list_of_nat(out, "M") if rc == 0 else None
+        ck.log("replay: model", "agrees with the implementation" if got == [] else "DISAGREES: %s" % (got if got is not None else out[-300:]))
+        if got != []:
+            ck.broken.append({"what": "correspondence: model and implementation disagree", "case": "replay"})
+    if why:
+        ck.violation(body.get("key", "impl:%s:replay" % c["kind"]), why[0],
+                     {"case": {k: v for k, v in c.items() if k != "obs"}, "detail": why[1], "observed": c.get("obs")})
+    return ck.finish(level="proof", rule="replay of one recorded case")
+
+
 def run(ck):
+    if ck.replay:
+        return replay(ck)
     ck.gen()
     built = ck.coq_make(MODEL + PROOFS, clean=ck.thorough)
     ck.obligations = ck.count_statements(STATEMENT_FILES)
@@ -409,17 +553,30 @@ def run(ck):
 
     # implementation-only oracle: the property read off the observed dispatch
     bad = set()
+    shrunk_keys = set()
+    outcomes = {}
     for i, c in enumerate(cases):
         ck.count(c["stream"], key=case_key(c), trivial=trivial(c))
+        tally(outcomes, c)
         why = impl_oracle(c, sets)
         if why:
             bad.add(i)
             what, detail = why
-            ck.violation("impl:%s:%s" % (c["kind"], what.split("(")[0].split("%")[0][:40].strip()
-                                         if c["kind"] in ("tiers",) else c["kind"] + "-dispatch"),
-                         what, {"case": {k: v for k, v in c.items() if k != "obs"}, "detail": detail,
-                                "expected": "dispatch to the exact / longest registered prefix and the permitted tier",
-                                "observed": c.get("obs")})
+            key = "impl:%s:%s" % (c["kind"], what.split("(")[0].split("%")[0][:40].strip()
+                                  if c["kind"] in ("tiers",) else c["kind"] + "-dispatch")
+            body = {"case": {k: v for k, v in c.items() if k != "obs"}, "detail": detail,
+                    "expected": "dispatch to the exact / longest registered prefix and the permitted tier",
+                    "observed": c.get("obs")}
+            if key not in shrunk_keys and not (c.get("obs") or {}).get("crash"):
+                shrunk_keys.add(key)               # minimise the first failing case of each kind
+                m = shrink(binp, c, sets)
+                mw = impl_oracle(m, sets)
+                if mw:
+                    body = {"case": {k: v for k, v in m.items() if k != "obs"}, "detail": mw[1],
+                            "minimised_from_case": c["i"], "expected": body["expected"], "observed": m.get("obs")}
+                    what = mw[0]
+            ck.violation(key, what, body)
+    ck.coverage["outcome_distribution"] = outcomes
     seen_streams = set()
     for c in cases:
         if c["stream"] not in seen_streams and len(json.dumps(c)) < 3000:
